@@ -58,9 +58,9 @@ class FnInfo(dict):
 
 
 class Frame:
-    __slots__ = ('body', 'fid', 'bb', 'dest', 'ret_target', 'visits', 'call_site')
+    __slots__ = ('body', 'fid', 'bb', 'dest', 'ret_target', 'visits', 'call_site', 'subst')
 
-    def __init__(self, body, fid, bb=0, dest=None, ret_target=None, call_site=None):
+    def __init__(self, body, fid, bb=0, dest=None, ret_target=None, call_site=None, subst=None):
         self.body = body
         self.fid = fid
         self.bb = bb
@@ -68,11 +68,19 @@ class Frame:
         self.ret_target = ret_target
         self.visits = {}
         self.call_site = call_site
+        self.subst = subst or {}        # type parameter name -> concrete type string, known from the inlining call site
 
     def copy(self):
-        f = Frame(self.body, self.fid, self.bb, self.dest, self.ret_target, self.call_site)
+        f = Frame(self.body, self.fid, self.bb, self.dest, self.ret_target, self.call_site, self.subst)
         f.visits = dict(self.visits)
         return f
+
+    def concrete(self, tix):
+        """type string of a type-table entry of this frame's crate, with this frame's type parameters substituted"""
+        t = self.body.crate.types[tix]
+        if t.get('k') == 'param':
+            return self.subst.get(t['s'], t['s'])
+        return t['s']
 
 
 class State:
@@ -752,6 +760,17 @@ class Engine:
         callee_body = None
         if fn and not in_tr:
             callee_body = self.facts.body(name)
+            if callee_body is None and fr.subst and (fn.get('targs') or []):
+                # `<P as Trait>::method` inside a generic function inlined with P known: pick the impl for that type
+                t0 = fr.body.crate.types[fn['targs'][0]]
+                if t0.get('k') == 'param' and t0['s'] in fr.subst and '::' in declared:
+                    trait_path, meth = declared.rsplit('::', 1)
+                    want = fr.subst[t0['s']]
+                    for cb_ in self.facts.bodies():
+                        if cb_.name == meth and cb_.impl_trait == trait_path and cb_.impl_self == want and cb_.defkind != 'Closure':
+                            callee_body = cb_
+                            name = cb_.path
+                            break
             if callee_body is None and fv[0] == 'fn' and fn.get('defkind') == 'Closure':
                 callee_body = self.facts.body(fn['path'])
         if callee_body is not None and len(st.frames) <= self.inline_depth \
@@ -759,7 +778,16 @@ class Engine:
                 and (self.inline_filter is None or self.inline_filter(callee_body)):
             self.inlined.add(callee_body.path)
             st.effects.append({'kind': 'inline', 'callee': callee_body.path, 'args': list(args), 'site': site, 'tracing': False})
-            nf = Frame(callee_body, st.next_fid, 0, dest, target, site)
+            subst = {}
+            targs = (fn or {}).get('targs') or []
+            # the resolved callee may list its own type arguments; prefer them when they match the generics in number
+            rt = ((fn or {}).get('resolved') or {}).get('targs')
+            if rt is not None and len(rt) == len(callee_body.generics):
+                targs = rt
+            if len(targs) == len(callee_body.generics):
+                for gname, tix in zip(callee_body.generics, targs):
+                    subst[gname] = fr.concrete(tix)
+            nf = Frame(callee_body, st.next_fid, 0, dest, target, site, subst)
             st.next_fid += 1
             for i, a in enumerate(args):
                 st.store[(('L', nf.fid, i + 1), ())] = a
